@@ -104,6 +104,9 @@ class Mon:
         self.shared = self.root.create_child_context()
         self.shared['hostvar'] = (1, 2, yutils.FrozenDict({'k': 'v'}))
         self.shared['n'] = 7
+        # raw (unconverted) host containers put into the prepared context by the host
+        self.shared['rawlist'] = [1, 2, 3]
+        self.shared['rawdict'] = {'k': [1], 'j': 2}
 
         def host_func(x):
             return x
@@ -237,6 +240,9 @@ class Mon:
         return st
 
     def make_data(self, seed, with_iter):
+        shared = getattr(self, 'shared_docs', None)
+        if shared is not None and not with_iter:
+            return shared[seed % len(shared)]       # the very same host document for every thread that uses this seed
         d = pool_doc(seed)
         if with_iter:
             d['items'] = SchedIter(d['items'], self)
@@ -312,7 +318,10 @@ def plan(tier, seed):
     return shards
 
 
-HELPERS = ['helper($.n)', '$.items.select(helper($)).sum(0)', 'helper(helper($.n))', 'add2($.n, 1)', 'add2($.n, helper(2))',
+RAW = ['$rawlist.insert(0, $.n).len()', '($rawlist + [$.n]).len()', '$rawlist.append($.n).toList()', '$rawdict.set(k, $.n).k',
+       '$rawlist.insert(1, $.n)', '$rawdict.k.insert(0, $.n)', '$rawlist.orderBy(-$).first()', '$rawlist.reverse().first() + $.n',
+       '$rawdict.mergeWith({k => [$.n]}).k', '$rawlist.replace(0, $.n).first()', '$rawlist.delete(0).len()']
+HELPERS = RAW + ['helper($.n)', '$.items.select(helper($)).sum(0)', 'helper(helper($.n))', 'add2($.n, 1)', 'add2($.n, helper(2))',
            'twice($.items).toList()', "hostAny('a')", 'hostAny($.n)', 'hostAny($.name)', 'hostAny2($.items)', "hostAny2($.name, 1)",
            'hostAny2(null, $.n)', 'hostChain($.n)', 'hostChain(2.5)', '[hostAny(1), hostAny(b)]', '$.items.select(hostAny($))',
            "$.recs.select(hostAny($.b))"]
@@ -392,7 +401,7 @@ def _random(spec, rec_mon, rec, rng):
             rec.sample({'threads': [j[0] for j in jobs], 'scheduling_points': b.points, 'switches': b.switches})
 
 
-LINE_FAMILIES = [HELPERS[:6], [h for h in HELPERS if 'hostAny(' in h], [h for h in HELPERS if 'hostAny2' in h or 'hostChain' in h],
+LINE_FAMILIES = [RAW, [h for h in HELPERS if 'helper' in h or 'add2' in h or 'twice' in h], [h for h in HELPERS if 'hostAny(' in h], [h for h in HELPERS if 'hostAny2' in h or 'hostChain' in h],
                  HELPERS[6:]]
 
 
@@ -403,12 +412,17 @@ def _line(spec, mon, rec, rng):
     (every window of w statements is hit with probability w/N), the rest are random with bounded preemptions."""
     from yaql.language import contexts, expressions, runner, specs, yaqltypes
     narrow = spec.get('narrow')
-    mods = (yaqltypes, specs) if narrow else (yaqltypes, specs, runner, contexts, expressions)
+    mods = (yaqltypes, specs, yutils) if narrow else (yaqltypes, specs, runner, contexts, expressions, yutils)
     mon.lp = hooks.LinePoints(hooks.module_codes(*mods)).start()
     solo_points = {}
     try:
         pool = SHORT
         for i in range(spec['count']):
+            # every third schedule: the threads are handed the same host document objects (input conversion of one
+            # document by several evaluations at once)
+            mon.shared_docs = [pool_doc(s_) for s_ in range(2)] if i % 3 == 2 else None
+            if mon.shared_docs is not None:
+                rec.count('sched.line_shared_documents')
             k = rng.choice((2, 2, 3))
             if rng.random() < 0.6:
                 fam = rng.choice(LINE_FAMILIES)
@@ -445,6 +459,7 @@ def _line(spec, mon, rec, rng):
             if i % 300 == 0:
                 rec.sample({'mode': 'line-level', 'threads': [j[0] for j in jobs], 'scheduling_points': b.points, 'switches': b.switches})
     finally:
+        mon.shared_docs = None
         rec.count('hook.line_points', mon.lp.count)
         mon.lp.stop()
         mon.lp = None
@@ -607,7 +622,7 @@ def replay(data, rec):
         ch = sched.DFSChooser(sc['prefix']) if sc['mode'] == 'dfs' else sched.ReplayChooser(sc['seq'])
         if sc.get('line'):
             from yaql.language import contexts, expressions, runner, specs, yaqltypes
-            mods = (yaqltypes, specs) if sc.get('narrow') else (yaqltypes, specs, runner, contexts, expressions)
+            mods = (yaqltypes, specs, yutils) if sc.get('narrow') else (yaqltypes, specs, runner, contexts, expressions, yutils)
             mon.lp = hooks.LinePoints(hooks.module_codes(*mods)).start()
         try:
             res, b = run_schedule(mon, jobs, ch)
